@@ -252,7 +252,14 @@ func paramMappings(params map[string]spec.Parameter) (map[string]map[string]stri
 	// In order to avoid unstable generation, adopt same naming convention
 	// for all parameters with same name across locations.
 	seenIDs := make(map[string]interface{}, len(params))
-	for id, p := range params {
+	seenNames := make(map[string]struct{ id, in, name string }, len(params))
+	ids := make([]string, 0, len(params))
+	for id := range params {
+		ids = append(ids, id)
+	}
+	sort.Strings(ids)
+	for _, id := range ids {
+		p := params[id]
 		debugLog("paramMappings: params: id=%s, In=%q, Name=%q", id, p.In, p.Name)
 		// guard against possible validation failures and/or skipped issues
 		if _, found := idMapping[p.In]; !found {
@@ -264,15 +271,18 @@ func paramMappings(params map[string]spec.Parameter) (map[string]map[string]stri
 			continue
 		}
 
-		if val, ok := seenIDs[p.Name]; ok {
-			previous := val.(struct{ id, in string })
+		goName := swag.ToGoName(p.Name)
+		if previous, ok := seenNames[goName]; ok && previous.in != p.In {
 			idMapping[p.In][p.Name] = swag.ToGoName(id)
 			// rewrite the previously found one
-			idMapping[previous.in][p.Name] = swag.ToGoName(previous.id)
+			idMapping[previous.in][previous.name] = swag.ToGoName(previous.id)
 		} else {
-			idMapping[p.In][p.Name] = swag.ToGoName(p.Name)
+			idMapping[p.In][p.Name] = goName
+			if !ok {
+				seenNames[goName] = struct{ id, in, name string }{id: id, in: p.In, name: p.Name}
+			}
 		}
-		seenIDs[strings.ToLower(idMapping[p.In][p.Name])] = struct{ id, in string }{id: id, in: p.In}
+		seenIDs[strings.ToLower(idMapping[p.In][p.Name])] = struct{}{}
 	}
 
 	// pick a deconflicted private name for timeout for this operation
